@@ -7,7 +7,7 @@ import ast
 from ..core import Checker, Rule, attr_calls, callee_is, calls_in, resolved_calls, short
 from ..interp import Pins, find_nodes, unparse
 from ..model import AnalysisError
-from .util import enclosing_loop, enclosing_stmt, every_iteration_reaches, fmt, is_const, loop_targets_with_origin, parent, returns_of, self_attr_for_param
+from .util import enclosing_loop, enclosing_stmt, every_iteration_reaches, fmt, is_const, loop_targets_with_origin, parent, returns_of, self_attr_for_param, single_def
 
 P = ("C08", "C01", "C06")
 CLS = "cleanup:CleanupTranslator"
@@ -159,8 +159,9 @@ def r_closure(ck: Checker) -> None:
                 and not gen.ifs
             )
     if not ok:
-        # var_map built by a named comprehension: look it up
-        for node in find_nodes(func.node, lambda n: isinstance(n, (ast.ListComp, ast.GeneratorExp))):
+        # var_map built by a named comprehension (or the loop it abbreviates): look it up
+        named = [single_def(func, n.id) for t in texts for n in ast.walk(ast.parse(t, mode="eval")) if isinstance(n, ast.Name)]
+        for node in [n for n in named if isinstance(n, (ast.ListComp, ast.GeneratorExp))] + find_nodes(func.node, lambda n: isinstance(n, (ast.ListComp, ast.GeneratorExp))):
             gen = node.generators[0]  # type: ignore[attr-defined]
             elt = node.elt  # type: ignore[attr-defined]
             if isinstance(elt, ast.Subscript) and unparse(elt.value) == f"{left}.var_map" and unparse(elt.slice) == unparse(gen.target) and unparse(gen.iter) == f"{right}.var_map" and not gen.ifs:
